@@ -32,6 +32,7 @@ type Profile struct {
 	Builtins           bool
 	Outcomes           []string // release outcomes
 	AllowPush          bool
+	PHandlerPush       int // probability (out of 100) that a parking handler first makes a callback (push-enabled servers)
 	PPush              int // weight of Callback steps issued from outside on a push-enabled server (out of 100 steps)
 	Pins               bool
 	Chans              []string
@@ -46,6 +47,8 @@ type State struct {
 	IDOf    map[int]string  // nonce -> id text ("" for notifications)
 	LiveIDs []string        // ids of calls sent so far (for cancel)
 	window  map[string]bool // ids sent in the current burst window
+	push    bool            // the server is push-enabled
+	HCB     []int           // nonces of handlers that make a callback before parking
 }
 
 func pick[T any](t *rapid.T, label string, xs []T) T { return rapid.SampledFrom(xs).Draw(t, label) }
@@ -107,6 +110,11 @@ func (s *State) Member(t *rapid.T, p Profile) string {
 	params := fmt.Sprintf(`{"k":%d}`, k)
 	if rapid.IntRange(0, 99).Draw(t, "gate") < p.PGate {
 		method = "gate"
+		if s.push && p.PHandlerPush > 0 && rapid.IntRange(0, 99).Draw(t, "hpush") < p.PHandlerPush {
+			// calls back to the peer, waits for the reply, then parks like any gate handler
+			method = "cbgate"
+			s.HCB = append(s.HCB, k)
+		}
 		s.Pending = append(s.Pending, k)
 		if rapid.IntRange(0, 99).Draw(t, "obey") < p.PObey {
 			params = fmt.Sprintf(`{"k":%d,"obey":true}`, k)
@@ -172,7 +180,7 @@ func ServerScenario(t *rapid.T, p Profile) sim.Scenario {
 	if p.PBaseDeadline > 0 && rapid.IntRange(0, 99).Draw(t, "basedl") < p.PBaseDeadline {
 		sc.Cfg.BaseDeadlineMs = 50
 	}
-	st := &State{IDOf: map[int]string{}, window: map[string]bool{}}
+	st := &State{IDOf: map[int]string{}, window: map[string]bool{}, push: sc.Cfg.AllowPush}
 	n := rapid.IntRange(p.MinSteps, p.MaxSteps).Draw(t, "nsteps")
 	outcomes := p.Outcomes
 	if len(outcomes) == 0 {
@@ -195,6 +203,13 @@ func ServerScenario(t *rapid.T, p Profile) sim.Scenario {
 			st.window = map[string]bool{}
 			sc.Steps = append(sc.Steps, sim.Step{Op: "advance", D: 200})
 			continue
+		case len(st.HCB) > 0 && roll >= 60 && roll < 60+p.PHandlerPush/2+4:
+			// the peer answers the callback of one of the handlers (again, perhaps)
+			j := rapid.IntRange(0, len(st.HCB)-1).Draw(t, "hcb")
+			step = sim.Step{Op: "cbreply", Push: "handler", K: st.HCB[j], Out: pick(t, "cbout", []string{"result", "result", "error"}), D: 1}
+			if rapid.IntRange(0, 3).Draw(t, "hcbonce") != 0 {
+				st.HCB = append(st.HCB[:j:j], st.HCB[j+1:]...)
+			}
 		case sc.Cfg.AllowPush && p.PPush > 0 && npush > 0 && roll >= 100-p.PPush-p.PPush/2-1 && roll < 100-p.PPush:
 			// the peer answers one of the callbacks (or answers it again): a record
 			// that holds nothing but a reply has nothing to report
